@@ -739,8 +739,9 @@ func doRecover(caller *frame) value {
 			// The target program explicitly called panic().
 			return p.v
 		case runtime.Error:
-			// The interpreter encountered a runtime error.
-			return iface{caller.i.runtimeErrorString, p.Error()}
+			// The interpreter encountered a runtime error. runtime.errorString's
+			// Error method adds the "runtime error: " prefix itself.
+			return iface{caller.i.runtimeErrorString, strings.TrimPrefix(p.Error(), "runtime error: ")}
 		case string:
 			// The interpreter explicitly called panic().
 			return iface{caller.i.runtimeErrorString, p}
